@@ -332,11 +332,15 @@ func (evm *EVM) Call(ctx context.Context, caller ethvm.ContractRef, addr common.
 					Block: &types.BlockInput{Number: &blockNum},
 				}, aspectLogger)
 				if preCallResult.Err != nil {
+					// the frame fails: undo the value transfer and account creation made above
+					evm.StateDB.RevertToSnapshot(snapshot)
+					gas = preCallResult.Gas
 					if preCallResult.Err.Error() == ErrOutOfGas.Error() {
 						preCallResult.Err = ErrOutOfGas
+						gas = 0
 					}
 
-					return preCallResult.Ret, preCallResult.Gas, preCallResult.Err
+					return preCallResult.Ret, gas, preCallResult.Err
 				}
 
 				gas = preCallResult.Gas
